@@ -37,7 +37,20 @@ struct VgHooks11 : VgHooks {
             r.err += "active part of the key schedule holds bytes that are not defined values;";
         if (obj && op.name.find(".init") != std::string::npos && r.ret == 1) {
             int kind = kind_of(op.name.substr(0, op.name.find('.')));
-            if (VALGRIND_CHECK_MEM_IS_DEFINED(obj, kind_size(kind))) r.err += "handle fields not all assigned by init;";
+            // the documented fields (vtable, ctx, parallel_size) must hold defined values after a successful init; a reserved
+            // member or padding that nothing ever reads is not a result and may stay as it was
+#define SKV_F(T, f) VALGRIND_CHECK_MEM_IS_DEFINED(&((T *)obj)->f, sizeof(((T *)obj)->f))
+            bool undef = false;
+            switch (kind) {
+            case C128: undef = SKV_F(Skinny128CTR_t, vtable) || SKV_F(Skinny128CTR_t, ctx); break;
+            case C64: undef = SKV_F(Skinny64CTR_t, vtable) || SKV_F(Skinny64CTR_t, ctx); break;
+            case CM: undef = SKV_F(MantisCTR_t, vtable) || SKV_F(MantisCTR_t, ctx); break;
+            case P128: undef = SKV_F(Skinny128ParallelECB_t, vtable) || SKV_F(Skinny128ParallelECB_t, ctx) || SKV_F(Skinny128ParallelECB_t, parallel_size); break;
+            case P64: undef = SKV_F(Skinny64ParallelECB_t, vtable) || SKV_F(Skinny64ParallelECB_t, ctx) || SKV_F(Skinny64ParallelECB_t, parallel_size); break;
+            case PM: undef = SKV_F(MantisParallelECB_t, vtable) || SKV_F(MantisParallelECB_t, ctx) || SKV_F(MantisParallelECB_t, parallel_size); break;
+            }
+#undef SKV_F
+            if (undef) r.err += "a documented handle field is not assigned by init;";
         }
         if (!r.img.empty()) VALGRIND_MAKE_MEM_DEFINED(r.img.data(), r.img.size());
     }
